@@ -43,6 +43,24 @@ NAMES = ["A", "B", "C", "D", "E"]
 NUMS = ["1", "10", "2", "21", "102"]
 WORDS = ["Ann", "Joann", "Jo", "An", "Anna"]
 POOLS = [NAMES, NAMES, NUMS, NUMS, WORDS, ["P", "Q", "R", "S", "T"], ["7", "17", "71", "171", "3"]]
+# names with letters outside ASCII, next to what they become when those letters are dropped or mis-decoded
+# ('José' / 'Jos' / 'JosÃ©'): the file readers must hand every identifier on unchanged
+ACCENTS = ["José", "Zoë", "Jos", "Zo", "JosÃ©"]
+
+
+def _text_files_hold(s):
+    """can a text file opened the default way (open(path, 'w') / open(path), the way both readers open theirs) hold `s`?"""
+    import locale
+    try:
+        enc = locale.getpreferredencoding(False)
+        return s.encode(enc).decode(enc) == s
+    except Exception:
+        return False
+
+
+NONASCII_OK = _text_files_hold("".join(ACCENTS) + "Köln")
+if NONASCII_OK:
+    POOLS = POOLS + [ACCENTS, ACCENTS]
 
 
 # ------------------------------------------------------------------------------------------------
@@ -68,6 +86,24 @@ def ballot_case(cands, r, w, l, E, cid=CID):
         a = a[::-1]
     return {"k": "ballot", "cid": cid, "cands": list(cands), "w": w, "l": l, "E": list(E),
             "r": list(r), "a": a, "g": enc_g(r)}
+
+
+def line_case(cands, line, w, l, E, cid=CID):
+    """a ballot as the two readers of the RAIRE format hand it on: `line` is the ballot line (duplicate-free; it may
+    rank identifiers that are not declared for the contest, e.g. a write-in).  CVR.from_raire gives every identifier
+    of the line its 1-based position; load_contests_from_raire keeps the declared candidates only, each at its 0-based
+    position ON THE LINE (so the positions need not be contiguous).  `r` = the ranking of the declared candidates."""
+    c = ballot_case(cands, [x for x in line if x in cands], w, l, E, cid)
+    a = [[x, k + 1] for k, x in enumerate(line)]
+    pick = (sum(ord(ch) for x in line for ch in str(x)) + len(E)) % 3
+    if pick == 1:
+        a = sorted(a, key=lambda p: str(p[0]))
+    elif pick == 2:
+        a = a[::-1]
+    c["a"] = a
+    c["g"] = [[x, k] for k, x in enumerate(line) if x in cands]
+    c["line"] = list(line)
+    return c
 
 
 def raw_case(cands, a, g, w, l, E, cid=CID):
@@ -120,6 +156,9 @@ def corpus():
         # outside the property's quantifier (a ranked candidate that is not in the contest's candidate list):
         # the audit side looks only at `remaining`, the generator side at every ballot entry -> they differ
         ballot_case(["A", "B"], ["X", "A"], "A", "B", []),
+        # ballot lines with a write-in: first (the declared candidates' positions start at 1), in the middle (a hole)
+        line_case(["A", "B"], ["W", "A", "B"], "A", "B", []),
+        line_case(c3, ["B", "W", "A", "C"], "A", "C", ["B"]),
         # ties / rank 0 (raw)
         raw_case(c3, [["A", 1], ["B", 1]], [["A", 0], ["B", 0]], "A", "B", []),
         raw_case(c3, [["A", 0], ["B", 2]], [["A", 0], ["B", 2]], "A", "B", ["C"]),
@@ -159,10 +198,12 @@ def gen_file(rng, tier):
     contests, per = [], []
     nb = rng.choice([3, 6, 10, 15, 25, 40])
     bids = [f"b{i}" for i in range(1, nb + 1)]
-    unlisted = rng.chance(0.08)
+    if NONASCII_OK and rng.chance(0.15):
+        bids = [f"Köln-{i}" if i % 3 else f"b{i}é" for i in range(1, nb + 1)]
+    unlisted = rng.chance(0.15)
     dup = rng.chance(0.06)
     for ci in range(ncon):
-        cid = f"c{ci + 1}"
+        cid = f"c{ci + 1}" if not (NONASCII_OK and rng.chance(0.08)) else f"Bezirk-ä{ci + 1}"
         nc = rng.choice([2, 3, 3, 4, 4, 4, 5] if tier == "thorough" else [2, 3, 3, 4, 4, 4, 4, 5])
         pool = rng.choice(POOLS)
         cands = pool[:nc]
@@ -250,6 +291,18 @@ def gen_raw(rng):
     return raw_case(cands, a, g, w, l, E)
 
 
+def gen_line(rng):
+    """a random ballot line with 1-2 undeclared identifiers among 2-5 declared candidates of a random name pool"""
+    nc = rng.choice([2, 3, 4, 4, 5])
+    cands = rng.choice(POOLS)[:nc]
+    line = rng.sample(cands, rng.randint(1, nc))
+    for x in rng.sample(["W", "write-in", "0"], rng.choice([1, 1, 2])):
+        line.insert(rng.randint(0, len(line)), x)
+    w, l = rng.sample(cands, 2)
+    E = [c for c in cands if c not in (w, l) and rng.chance(0.4)]
+    return line_case(cands, line, w, l, E)
+
+
 def gen(rng, n, tier):
     count = 0
     top = 4 if tier == "quick" else 5
@@ -271,10 +324,24 @@ def gen(rng, n, tier):
         for E in ([], ["C"]):
             yield ballot_case(["A", "B", "C"], r, "A", "B", E)
             count += 1
+    # ballot lines that also rank an undeclared identifier (write-in "W"): every duplicate-free line over the
+    # declared candidates + W that contains W, 2-3 candidates (thorough: a random third of the 4-candidate ones too)
+    for nc in ((2, 3) if tier == "quick" else (2, 3, 4)):
+        cands = NAMES[:nc]
+        for line in partial_rankings(cands + ["W"]):
+            if "W" not in line or len(line) < 2:
+                continue
+            for w in cands:
+                for l in cands:
+                    for E in subsets([c for c in cands if c not in (w, l)]):
+                        if nc == 4 and not rng.chance(0.33):
+                            continue
+                        yield line_case(cands, list(line), w, l, E)
+                        count += 1
     rest = max(n - count, 300)
     nfiles = int(rest * 0.35)
-    for _ in range(rest - nfiles):
-        yield gen_raw(rng)
+    for i in range(rest - nfiles):
+        yield gen_line(rng) if i % 4 == 0 else gen_raw(rng)
     for _ in range(nfiles):
         yield gen_file(rng, tier)
 
@@ -489,7 +556,8 @@ def signature(case, ir):
     if case["k"] == "ballot":
         if not case["a"]:
             return "trivial:empty-ballot"
-        kind = "raw" if case["r"] is None else ("canon" if set(case["r"]) <= set(case["cands"]) else "unlisted")
+        kind = "raw" if case["r"] is None else ("line" if "line" in case else
+                                                 "canon" if set(case["r"]) <= set(case["cands"]) else "unlisted")
         wl = "w=l" if case["w"] == case["l"] else "w!=l"
         return f"ballot:{kind};{wl};neb={ir['aw']}{ir['al']};nen={ir['rw']}{ir['rl']}"
     a, g = ir["audit"], ir["gen"]
@@ -526,7 +594,12 @@ def oracle_c14(case, ir):
             if Fraction(ir["nen"]) != Fraction(ir["nw"] - ir["nl"] + 1, 2):
                 return {"what": f"{tag}, eliminated {E}, candidates {cands}: NEN assorter gives {ir['nen']}, generator "
                                 f"verdicts w={ir['nw']} l={ir['nl']} require {(ir['nw'] - ir['nl'] + 1) / 2}"}
-            if ir["aorder"] != list(r) or ir["gorder"] != list(r):
+            if "line" in case:
+                # the ballot as read from a line that also ranks undeclared identifiers: the audit side keeps them,
+                # the generator side drops them; both must keep the line's order of the declared candidates
+                if ir["aorder"] != case["line"] or ir["gorder"] != list(r) or [c for c in ir["aorder"] if c in cands] != list(r):
+                    return {"what": f"{tag}: ballot line {case['line']}: orders decoded audit={ir['aorder']} generator={ir['gorder']}"}
+            elif ir["aorder"] != list(r) or ir["gorder"] != list(r):
                 return {"what": f"{tag}: orders decoded audit={ir['aorder']} generator={ir['gorder']}"}
         return None
     # ---- RAIRE file
@@ -545,10 +618,13 @@ def oracle_c14(case, ir):
             if x["vW"] != x["rW"] or x["vL"] != x["rL"]:
                 return {"what": f"contest {cid}: returned {x['t']} assertion winner={x['w']} loser={x['l']} eliminated={x['E']} "
                                 f"reports tallies {x['vW']}/{x['vL']} but re-applied to the cvrs gives {x['rW']}/{x['rL']}"}
-    if case["unlisted"]:
-        return None
-    # same preference order from both readers, per (ballot, contest)
-    ao = {bid: dict((cid, o) for cid, o in lst) for bid, lst in a["orders"]}
+    # same preference order from both readers, per (ballot, contest).  A line may also rank identifiers that the
+    # contest line does not declare (write-ins): CVR.from_raire_file keeps them, load_contests_from_raire drops them
+    # (keeping the declared candidates at their positions on the line), so the orders are compared on the declared
+    # candidates; no assertion can name an undeclared identifier.
+    declared = {cid: set(cands) for cid, cands, _w in case["contests"]}
+    ao = {bid: dict((cid, [c for c in o if c in declared.get(cid, ())] if case["unlisted"] else o) for cid, o in lst)
+          for bid, lst in a["orders"]}
     go = {bid: dict((cid, o) for cid, o in lst) for bid, lst in g["orders"]}
     if ao != go:
         for bid in list(ao) + list(go):
